@@ -53,12 +53,6 @@ pub fn proportional_weights<P: SingleObjectiveProblem>(
 
     let weights: Vec<_> = population.iter().map(|i| i.objective().value()).collect();
 
-    // Positive objective values can be directly used as weights after reversing.
-    if min > 0.0 {
-        // Add an offset to allow the worst to have a weight of `offset`, and not zero.
-        return Some(weights.iter().map(|o| max - o + offset).collect());
-    }
-
     // Explicitly handle uniform weights here to avoid having a sum of 0 later.
     // When all weights are identical, subtracting the `min` otherwise produces
     // weights all zero, which is not supported by most sampling methods, and dividing
@@ -73,6 +67,12 @@ pub fn proportional_weights<P: SingleObjectiveProblem>(
             .take(population.len())
             .collect(),
         );
+    }
+
+    // Positive objective values can be directly used as weights after reversing.
+    if min > 0.0 {
+        // Add an offset to allow the worst to have a weight of `offset`, and not zero.
+        return Some(weights.iter().map(|o| max - o + offset).collect());
     }
 
     // Shift all values to be `>= 0` using `o - min`, where `min` is guaranteed to be `<= 0`.
